@@ -232,7 +232,7 @@ let fsck_state (s : st) : string =
   match s.s_vols with
   | [v] ->
     let fsz = bpb_fat_size (disk_get s.s_disk v.v_lba) in
-    if fs_inv_b fsck_depth fsz s.s_disk v (pend_of s v) then "ok" else "bad"
+    if fs_inv_fast fsck_depth fsz s.s_disk v (pend_of s v) then "ok" else "bad"
   | [] -> "novol"
   | _ -> "multi"
 
@@ -245,7 +245,7 @@ let fsck_image path slot pend =
     (match s1.s_vols with
      | [v] ->
        let fsz = bpb_fat_size (disk_get s1.s_disk v.v_lba) in
-       print_endline (if fs_inv_b fsck_depth fsz s1.s_disk v (List.map n_of_int pend) then "FSCK ok" else "FSCK bad")
+       print_endline (if fs_inv_fast fsck_depth fsz s1.s_disk v (List.map n_of_int pend) then "FSCK ok" else "FSCK bad")
      | _ -> print_endline "FSCK nomount")
   | _ -> print_endline "FSCK nomount"
 
@@ -259,7 +259,7 @@ let run_fsck path =
     | None -> let (mv, md, mf, off) = !cfg in
       let s = init_state !img (n_of_int off) (n_of_int mv) (n_of_int md) (n_of_int mf) (List.map n_of_int !faults) in
       state := Some s; s in
-  let dead = ref false in
+  let dead = ref false and last = ref "novol" and last_key = ref None in
   (try while true do
      let line = String.trim (input_line ic) in
      let toks = List.filter (fun x -> x <> "") (String.split_on_char ' ' line) in
@@ -287,7 +287,11 @@ let run_fsck path =
           | Err _ -> ()
           | Panic | OutOfFuel -> dead := true);
          state := Some s1;
-         Printf.printf "FSCK %d %s\n" n (fsck_state s1)
+         (* the verdict can only change when the medium, the volume table or the file table changed *)
+         let wrote = List.exists (function DWrite _ -> true | _ -> false) s1.s_trace in
+         let key = (List.length s1.s_vols, List.map (fun (f : fileinfo) -> (f.f_id, f.f_entry.e_cluster)) s1.s_files) in
+         if wrote || Some key <> !last_key then begin last_key := Some key; last := fsck_state s1 end;
+         Printf.printf "FSCK %d %s\n" n !last
      | _ -> ()
    done with End_of_file -> ());
   close_in ic
